@@ -508,6 +508,12 @@ class Body:
             elems = elems[1:]
             if not elems:
                 return base
+        # x.checked_sub(c) matched as Some(v): v == x - c (no wrap on that edge)
+        if base[0] == "call" and re.fullmatch(r"(u8|u16|u32|u64|usize)::checked_(sub|add)", base[1]) and len(base[2]) == 2 and len(elems) >= 2 and elems[0] == "@Some" and elems[1] == "0":
+            base = ("bin", "Sub" if base[1].endswith("sub") else "Add", base[2][0], base[2][1])
+            elems = elems[2:]
+            if not elems:
+                return base
         # field of an aggregate literal built in this body: pick the operand
         if base[0] == "agg" and isinstance(elems[0], str) and not elems[0].startswith("@"):
             names = base[3] if len(base) > 3 else None
@@ -868,6 +874,54 @@ class Body:
             for y, _ in self.succ[x]:
                 if y not in seen:
                     dq.append((y, path + [y]))
+        return None
+
+    def reach_exit_avoiding_flags(self, start_bb, blockers, fa, blocked_edges=()):
+        """Like reach_exit_avoiding(Loc(start_bb, -1), blockers), but a path is followed only while it is consistent
+        with the boolean locals it assigned on the way: after `v = true` the `!v` edge of a later `switch v` is not
+        taken (rustc lowers `matches!`, `&&`, `||` and match guards to such flags).  Returns a witness path or None."""
+        bl = defaultdict(list)
+        for l in blockers:
+            bl[l.bb].append(l.idx)
+
+        def flags_after(bb, env):
+            env = dict(env)
+            for s in self.stmts(bb):
+                if s["k"] == "assign" and not s["pl"]["p"]:
+                    rv = s["rv"]
+                    v = "var%d" % s["pl"]["l"]
+                    if rv["k"] == "use" and rv["op"]["k"] == "const" and str(rv["op"].get("ty")) == "bool" and "bits" in rv["op"]:
+                        env[v] = bool(int(rv["op"]["bits"]))
+                    else:
+                        env.pop(v, None)
+            t = self.term(bb)
+            if t["k"] == "call" and not t["dest"]["p"]:
+                env.pop("var%d" % t["dest"]["l"], None)
+            return env
+        be = set(blocked_edges)
+        seen = set()
+        dq = deque([(start_bb, frozenset(), [start_bb])])
+        while dq:
+            x, envf, path = dq.popleft()
+            if (x, envf) in seen:
+                continue
+            seen.add((x, envf))
+            if x in bl:
+                continue
+            if self.is_return(x):
+                return path
+            env = flags_after(x, dict(envf))
+            for y, lab in self.succ[x]:
+                lits = fa.edge_lits.get((x, y, lab[1]), []) if lab and lab[0] == "sw" else []
+                bad = bool(lab) and len(lab) > 1 and (x, y, lab[1]) in be
+                for lit in lits:
+                    m = _BOOL_LOCAL_RX.fullmatch(lit)
+                    if m:
+                        v = lit.lstrip("!")
+                        if v in env and env[v] != (not lit.startswith("!")):
+                            bad = True
+                if not bad:
+                    dq.append((y, frozenset(env.items()), path + [y]))
         return None
 
     def reach_exit_avoiding_edges(self, blockers, blocked_edges):
@@ -1580,6 +1634,15 @@ class FactsAnalysis:
                         l = "is(%s,%s)" % (show(pe), nm or ("#" + v))
                         self.lit_places[l] = places_of(pe)
                         lits.append(l)
+                        # x.checked_sub(c) is Some  <=>  c <= x   (for c == 1: x != 0);   None  <=>  x < c
+                        if pe[0] == "call" and re.fullmatch(r"(u8|u16|u32|u64|usize)::checked_sub", pe[1]) and len(pe[2]) == 2 and nm in ("Some", "None"):
+                            x_, c_ = pe[2]
+                            one = c_[0] == "const" and str(c_[1]) == "1"
+                            zero = ("const", "0", c_[2] if len(c_) > 2 else "usize", None)
+                            if nm == "Some":
+                                lits += self.bool_lits(("bin", "Lt", zero, x_) if one else ("bin", "Le", c_, x_), True)
+                            else:
+                                lits += self.bool_lits(("bin", "Le", x_, zero) if one else ("bin", "Lt", x_, c_), True)
                     else:
                         listed = [b.facts.variant_name(pty, x) if pty else None for x in vals]
                         if names and all(listed):
@@ -1588,6 +1651,14 @@ class FactsAnalysis:
                                 l = "is(%s,%s)" % (show(pe), rest[0])
                                 self.lit_places[l] = places_of(pe)
                                 lits.append(l)
+                                if pe[0] == "call" and re.fullmatch(r"(u8|u16|u32|u64|usize)::checked_sub", pe[1]) and len(pe[2]) == 2 and rest[0] in ("Some", "None"):
+                                    x_, c_ = pe[2]
+                                    one = c_[0] == "const" and str(c_[1]) == "1"
+                                    zero = ("const", "0", c_[2] if len(c_) > 2 else "usize", None)
+                                    if rest[0] == "Some":
+                                        lits += self.bool_lits(("bin", "Lt", zero, x_) if one else ("bin", "Le", c_, x_), True)
+                                    else:
+                                        lits += self.bool_lits(("bin", "Le", x_, zero) if one else ("bin", "Lt", x_, c_), True)
                             else:
                                 for n in listed:
                                     l = "!is(%s,%s)" % (show(pe), n)
